@@ -63,8 +63,8 @@ inductive In
 inductive Action
   | ackSyn (p : Int)                          -- syn consumed: currentRetries[p] = nil, inFlight.Done   (wg.done.syn)
   | refuse (id : Int)                         -- the token is not accepted on arrival                  (bp.bounce)
-  | requeue (id : Int) (p : Int) (retries : Nat)  -- retryMessage: pushed to p.retries with retries+1  (retry)
-  | expire (id : Int) (p : Int)               -- retryMessage with the budget spent: returnError        (ret.err)
+  | requeue (id : Int) (p : Int) (retries : Nat) (fin : Bool)  -- retryMessage: pushed to p.retries, new count (retry)
+  | expire (id : Int) (p : Int) (fin : Bool)  -- retryMessage with the budget spent: returnError        (ret.err)
   | add (id : Int) (p : Int)                  -- appended to the buffer                                 (bp.add)
   | succ (id : Int) (p : Int)                 -- returnSuccesses                                        (ret.succ)
   | fail (id : Int) (p : Int)                 -- returnErrors                                           (ret.err)
@@ -90,9 +90,14 @@ def offPart (p : Int) (ts : List Tok) : List Tok := ts.filter (fun t => !(t.part
 
 def partsOf (ts : List Tok) : List Int := ts.map (·.part)
 
+def Tok.isFin (t : Tok) : Bool :=
+  match t.kind with
+  | .fin => true
+  | _ => false
+
 /-- asyncProducer.retryMessage -/
 def retryMsg (max : Nat) (t : Tok) : Action :=
-  if t.retries ≥ max then .expire t.id t.part else .requeue t.id t.part (t.retries + 1)
+  if t.retries ≥ max then .expire t.id t.part t.isFin else .requeue t.id t.part (t.retries + 1) t.isFin
 
 def retryMsgs (max : Nat) (ts : List Tok) : List Action := ts.map (retryMsg max)
 
